@@ -1259,22 +1259,17 @@ func conv(t_dst, t_src types.Type, x value) value {
 
 		// unsafe.Pointer -> *value
 		if ut_src.Kind() == types.UnsafePointer {
-			// TODO(adonovan): this is wrong and cannot
-			// really be fixed with the current design.
-			//
-			// return (*value)(x.(unsafe.Pointer))
-			// creates a new pointer of a different
-			// type but the underlying interface value
-			// knows its "true" type and so cannot be
-			// meaningfully used through the new pointer.
-			//
-			// To make this work, the interpreter needs to
-			// simulate the memory layout of a real
-			// compiled implementation.
-			//
-			// To at least preserve type-safety, we'll
-			// just return the zero value of the
-			// destination type.
+			// Every VM cell is a dynamically typed `value`, so the round trip
+			// *T -> unsafe.Pointer -> *T (what sync/atomic.Pointer[T] does) is
+			// exact. Type punning (*T -> unsafe.Pointer -> *U) is not modelled:
+			// the cell keeps its T-typed content and the first use through *U
+			// fails inside the VM (reported as unsupported), never silently.
+			if up, ok := x.(unsafe.Pointer); ok && up != nil {
+				if _, isPtr := ut_dst.(*types.Pointer); isPtr {
+					return (*value)(up)
+				}
+				panic(vmUnsupported("conversion of unsafe.Pointer to " + t_dst.String()))
+			}
 			return zero(t_dst)
 		}
 
